@@ -44,12 +44,14 @@ Definition eff_state (p : posting) : pstate :=
 (* ------------------------------------------------------------------- options *)
 
 Inductive stfilter := SAny | SCleared | SUncleared | SPending.
-Inductive query := QNone | QAcct (pat : str) | QPayee (pat : str).
+(* query terms of the command line are OR-ed (query.cc); no term = no predicate *)
+Inductive qterm := QAcct (pat : str) | QPayee (pat : str).
+Definition query := list qterm.
 
 Record opts : Type := mkOpts {
   o_real  : bool;             (* --real      : limit `real` *)
   o_state : stfilter;         (* --cleared / --uncleared (`uncleared|pending`) / --pending *)
-  o_query : query;            (* PATTERN -> account =~ /PATTERN/ ; @PATTERN -> payee =~ /PATTERN/ *)
+  o_query : query;            (* PATTERN -> account =~ /PATTERN/ ; @PATTERN -> payee =~ /PATTERN/ ; OR-ed *)
   o_basis : bool;             (* -B : amount expression rounded(cost) *)
   o_kp : bool; o_kd : bool; o_kt : bool;     (* what_to_keep: lot price / date / tag *)
   o_flat  : bool;
@@ -92,11 +94,16 @@ Definition state_ok (f : stfilter) (s : pstate) : bool :=
   | _, _ => false
   end.
 
-Definition query_ok (q : query) (p : posting) : bool :=
-  match q with
-  | QNone => true
+Definition term_ok (p : posting) (t : qterm) : bool :=
+  match t with
   | QAcct pat => is_substr pat (fullname (p_acct p))
   | QPayee pat => is_substr pat (p_payee p)
+  end.
+
+Definition query_ok (q : query) (p : posting) : bool :=
+  match q with
+  | [] => true
+  | _ => existsb (term_ok p) q
   end.
 
 (* the limit predicate: the conjunction of everything the options push onto limit_ *)
@@ -467,3 +474,47 @@ Definition bal_rows (ord : bool) (cp : comm -> Z) (o : opts) (ps : list posting)
 (* the total line (printed when more than one account was displayed): the master account *)
 Definition grand_total (ord : bool) (o : opts) (ps : list posting) : res brow :=
   brow_of ord o ps [].
+
+(* --------------------------------- account_t::amount(), the lazy walk (account.cc:617-639)
+   The C++ keeps, per account, self_details.total and the iterator self_details.last_post, and
+   per posting the flags POST_EXT_VISITED (set by calc_posts) and POST_EXT_CONSIDERED (set
+   here).  One call walks from last_post (inclusive) to the end of account_t::posts, adds
+   every visited posting that was not considered yet, marks it, and leaves last_post on the
+   last element.  `own` above is what one call on fresh flags returns (own_lazy_eq). *)
+Record lpost : Type := mkLpost { lp_amt : amount; lp_visited : bool; lp_considered : bool }.
+
+Definition lp_fresh (x : lpost) : bool := lp_visited x && negb (lp_considered x).
+Definition lp_consider (x : lpost) : lpost :=
+  if lp_fresh x then mkLpost (lp_amt x) true true else x.
+
+Fixpoint walk (ord : bool) (acc : value) (l : list lpost) : res (value * list lpost) :=
+  match l with
+  | [] => Ok (acc, [])
+  | x :: l' =>
+      if lp_fresh x
+      then do t <- v_add ord acc (VAmt (lp_amt x));
+           do r <- walk ord t l';
+           Ok (fst r, lp_consider x :: snd r)
+      else do r <- walk ord acc l'; Ok (fst r, x :: snd r)
+  end.
+
+Record self_details : Type := mkSelf { sd_total : value; sd_last : option nat }.
+
+Definition amount_call (ord : bool) (sd : self_details) (posts : list lpost)
+  : res (self_details * list lpost) :=
+  let start := match sd_last sd with Some i => i | None => O end in
+  do r <- walk ord (sd_total sd) (skipn start posts);
+  Ok (mkSelf (fst r) (match posts with [] => sd_last sd | _ => Some (length posts - 1)%nat end),
+      firstn start posts ++ snd r).
+
+(* the postings of account a as the report sees them: all of them, the selected ones visited *)
+Definition acct_lposts (o : opts) (ps : list posting) (a : path) : list lpost :=
+  map (fun p => mkLpost (amt o p) (sel o p) false)
+      (filter (fun p => path_eqb (p_acct p) a) ps).
+
+(* what `%(amount)` of a balance row returns: total() already called amount() once, the
+   format calls it a second time *)
+Definition own_lazy_twice (ord : bool) (o : opts) (ps : list posting) (a : path) : res value :=
+  do r1 <- amount_call ord (mkSelf VVoid None) (acct_lposts o ps a);
+  do r2 <- amount_call ord (fst r1) (snd r1);
+  Ok (sd_total (fst r2)).
